@@ -159,7 +159,6 @@ fn run_kernel(k: usize, params: &[i64], ins: &[ArrayRef]) -> Option<Result<Array
             let conv = arrow_row::RowConverter::new(vec![arrow_row::SortField::new(x.data_type().clone())]);
             match conv { Ok(c) => c.convert_columns(&[x.clone()]).and_then(|rows| c.convert_rows(rows.iter())).map(|mut v| v.remove(0)), Err(_) => return None } }
         12 => arrow_select::zip::zip(&to_bool_array(params), &ins[0], &ins[1]),
-<<<<<<< HEAD
         13 => Ok(builder_script(params)),
         14 => { // garbage collection of view arrays (null slots may hold long views)
             use arrow_array::cast::AsArray;
@@ -180,8 +179,6 @@ fn run_kernel(k: usize, params: &[i64], ins: &[ArrayRef]) -> Option<Result<Array
             let n = params[0] as usize; let len = x.len(); if len == 0 { return None }
             let idx = UInt32Array::from((0..n).map(|i| ((i * 7 + params[1] as usize) % len) as u32 * (params[2] as u32 % 2) ).collect::<Vec<_>>());
             arrow_select::take::take(x.as_ref(), &idx, None) }
-=======
->>>>>>> c16
         _ => return None,
     };
     Some(out)
